@@ -750,6 +750,12 @@ int mpq_EGlpNumReadStrXc (mpq_t var,
 			 * exponent */
 			else
 			{
+				/* an exponent beyond this is not a number we could ever expand */
+				if (l_exp > 100000)
+				{
+					n_char = 0;
+					goto DONE;
+				}
 				l_exp = 10 * l_exp + c - '0';
 				a_exp_sgn = 0;
 			}
@@ -828,8 +834,13 @@ int mpq_EGlpNumReadStrXc (mpq_t var,
 		/* ending */
 		mpq_canonicalize (den[0]);
 		mpq_canonicalize (den[1]);
-		mpq_div (var, den[0], den[1]);
+		/* "p/0" (or "p/" with nothing behind it) is not a number */
+		if (mpq_sgn (den[1]) == 0)
+			n_char = 0;
+		else
+			mpq_div (var, den[0], den[1]);
 	}
+DONE:
 	mpq_clear (den[0]);
 	mpq_clear (den[1]);
 	return n_char;
